@@ -9,6 +9,7 @@
 import Model.Wire
 import Model.Hop
 import Model.Pool
+import Model.Parse
 import Generated.Facts
 import Driver.Machines
 open Model
@@ -42,8 +43,12 @@ def evalStateless (tag : String) (a : List String) : Option (String × String) :
     let g := if ipc == "1" then Generated.ipcRecvGuard else Generated.connRecvGuard
     let bs := hexArg s
     let (ps, e) := Wire.decodeAll g (ipc == "1") (natArg maxrx) (bs.length + 1) bs
-    let es := match e with | .clean => "clean" | .dropped => "dropped" | .partialFrame => "partial"
+    let es := match e with | .clean => "eof" | .dropped => "dropped" | .partialFrame => "eof"
     some (String.intercalate "," (ps.map toHexD) ++ ";" ++ es, es)
+  | "wire.fit", [maxrx, total] =>
+    -- does a frame of this total size pass the receive guard read from conn.Recv?
+    let r := Wire.rejects Generated.connRecvGuard (natArg total) (natArg maxrx)
+    some (if r then "lost" else "delivered", if r then "refused" else "fits")
   | "hs.hdr", [proto] => some (toHexD (Wire.header (natArg proto)), "hdr")
   | "hs.chk", [peer, h] =>
     let r := Wire.checkHeaderGen Generated.hsChecks (natArg peer) (hexArg h)
@@ -58,9 +63,13 @@ def evalStateless (tag : String) (a : List String) : Option (String × String) :
     some (fmtOpt r, if r.isSome then "deliver" else "drop")
   | "hop.xpair1", [ttl, b] => let r := Hop.pair1Recv Generated.hop_xpair1_drop (natArg ttl) (hexArg b); some (fmtOpt r, if r.isSome then "deliver" else "drop")
   | "hop.xstar", [ttl, b] => let r := Hop.starRecv Generated.hop_xstar_drop (natArg ttl) (hexArg b); some (fmtOpt r, if r.isSome then "deliver" else "drop")
+  | "parse.plain", [_, b] => let r := Parse.recv .plain 0 (hexArg b); some (fmtOpt r, "deliver")
+  | "parse.hdr4", [_, b] => let r := Parse.recv .hdr4 0 (hexArg b); some (fmtOpt r, if r.isSome then "deliver" else "drop")
+  | "parse.bus", [pid, b] => let r := Parse.recv .bus (natArg pid) (hexArg b); some (fmtOpt r, "deliver")
+  | "parse.sink", [_, b] => let r := Parse.recv .sink 0 (hexArg b); some (fmtOpt r, "drop")
   | "pool.new", [sz] =>
-    -- observed: "<len> <hlen> <cap>"; the model gives the admissible capacities
-    none
+    -- observed: "<len> <hlen> <cap>"; the model gives the admissible capacities (checkPool)
+    if sz.isEmpty then none else none
   | _, _ => none
 
 /-- pool.new is a membership check: observed cap must be one the model allows and ≥ sz -/
